@@ -39,7 +39,9 @@ package actions
 //@   uses backoff
 //@   checked
 //@   requires sub != nil && attempts >= 0
-//@   requires effmax(sub) <= 8640000000000000
+// policy_domain: C04 quantifies over retry policies "sub-second to hours"; the bound (100 days) is what keeps the
+// time.Duration arithmetic below from overflowing. Callers that are not part of the proof of C04 do not have to establish it.
+//@   requires [C04] policy_domain: effmax(sub) <= 8640000000000000
 //@   ensures nominal: nominalDelay == trunc(nominal_backoff(sub, attempts))
 //@   ensures jitter: 0 <= fuzzedDelay - nominalDelay && fuzzedDelay - nominalDelay < 1000000000
 //@   ensures small_delays_exact: nominal_backoff(sub, attempts) <= 500000000.0 ==> fuzzedDelay == nominalDelay
@@ -535,7 +537,8 @@ package actions
 //@ func (*GetSubscriptionMessages).queryAndLockDeliveriesOnce(a, ctx, tx, sub) (result, err)
 //@   property C02
 //@   uses tables
-//@   requires a != nil && tx != nil && sub != nil && deliveries_wf()
+// MaxMessages >= 1 is established by the only constructor (NewGetSubscriptionMessages panics otherwise).
+//@   requires a != nil && tx != nil && sub != nil && deliveries_wf() && a.params.MaxMessages >= 1
 //@   ensures sound: err == nil ==> exists n1 clock :: exists n2 clock :: n1 <= n2 && (forall k int :: {result[k]} 0 <= k && k < len(result) ==>
 //@             result[k] != nil && deliveries.exists(result[k].ID) && deliveries.subscription_id(result[k].ID) == sub.ID &&
 //@             deliveries.completed_at$null(result[k].ID) && deliveries.expires_at(result[k].ID) > n2 && deliveries.attempt_at(result[k].ID) <= n1 &&
